@@ -19,15 +19,18 @@ TECHNIQUE = (
     "stub lhapdf module"
 )
 RULE = (
-    "kind=evolve: synthetic EKO with dense random operators on a jittered log grid of 3-6 points (degree 1-3), an "
+    "kind=evolve: synthetic EKO with dense random operators on a jittered log grid of 3-6 points from x_min in "
+    "[1e-9, 0.25] (degree 1-3), an "
     "unsorted evolution grid of 1-3 nf blocks with 1-3 scales each (per-nf ranges disjoint and ascending, sometimes "
     "sharing the boundary scale, 6% deliberately overlapping -> ValueError), POLE or MSBAR masses (MSbar masses "
     "given at their own or at another scale), QCD order 1-4, exact/expanded coupling, matching ratios 1 or drawn, 8% "
     "exponentiated scale variation with xif != 1, 1-3 members (table PDFs with missing flavours), target grid "
-    "absent / list / numpy array / XGrid of 2-6 sorted points mixing nodes and interior points, optional "
+    "absent / list / numpy array / XGrid: 2-6 points mixing nodes and interior points, the operator grid itself, or "
+    "the operator grid with nodes moved by < 8e-6 relative or < 1e-8 absolute (same length, np.allclose to it but "
+    "different), given ascending, descending or in arbitrary order (written in the order given; an XGrid sorts), optional "
     "info_update, optional install into a stub LHAPDF directory. Oracle: member files parsed by the harness: per nf "
     "block x-grid, Q-grid, pids and every value = x . (R .) sum_{b,k} op[a,j,b,k] xf_b(x_k)/x_k to the printed "
-    "precision; info: XMin/XMax = ends of the written x-grid, QMin/QMax = extreme written Q, Flavors = written "
+    "precision; info: XMin/XMax = smallest/largest written x node (1e-12), QMin/QMax = extreme written Q, Flavors = written "
     "pids, NumFlavors = largest nf, NumMembers = number of member files, AlphaS_Qs = written Q's, AlphaS_Vals = "
     "4 pi a_s of eko.runner.commons.couplings(theory, operator) at those scales and nf; the repository's own "
     "reader returns the same blocks. kind=roundtrip: random blocks (1-3 blocks, 1-5 x, 1-4 Q, 1-14 pids, values "
@@ -42,8 +45,11 @@ ASSUMPTIONS = [
     "alpha_s values to 1e-10 relative against the Couplings object built by eko.runner.commons.couplings - the "
     "object the evolution uses (MSbar masses converted to m(m), thresholds times xif^2 for exponentiated scale "
     "variation) - evaluated as a_s(mu^2, nf_to=nf)",
-    "target grids are sorted, inside [x_min, 1], nodes separated by > 0.1% (LHAPDF needs ascending distinct nodes); "
-    "list, numpy array and XGrid are all accepted input types (docstring: list(float); the code calls .raw)",
+    "target grids lie inside [x_min, 1] with nodes separated by > 0.1% in any order (evolve_pdfs writes an explicit "
+    "grid in the order given and interpolates at exactly the requested nodes, also when they are within np.allclose "
+    "of the operator grid); list, numpy array and XGrid are all accepted input types",
+    "interpolated values: the tolerance scale also contains 64 eps x the monomial-term size of the basis polynomials "
+    "(as in C43), needed for targets next to nodes on grids reaching 1e-9",
     "MSbar inputs are constructed consistent (charm, bottom given above their mass, top below, alpha_s(91.2 GeV, "
     "nf=5)); a configuration refused by eko.io.runcards.masses is discarded and counted",
     "the stub lhapdf module only provides paths(), exactly as tests/conftest.py::fake_lhapdf",
@@ -54,6 +60,7 @@ LEVEL_TEXT = (
 )
 
 VAL_REL = 5.1e-9
+AMP_W = 64 * 2.220446049250313e-16 / 1e-10  # monomial-form rounding of the interpolation polynomials (see C43)
 NODE_REL = 5.1e-7
 
 
@@ -72,7 +79,7 @@ def strategy(tier):
     @st.composite
     def evolve(draw):
         n = draw(st.integers(3, 6))
-        xgrid = bs.make_xgrid(n, 10 ** draw(st.floats(-3, -0.6)), [draw(st.floats(0.6, 1.6)) for _ in range(n - 1)])
+        xgrid = bs.make_xgrid(n, 10 ** draw(st.floats(-9, -0.6)), [draw(st.floats(0.6, 1.6)) for _ in range(n - 1)])
         deg = draw(st.integers(1, min(3, n - 1)))
         nblocks = draw(st.sampled_from([1, 2, 2, 3]))
         nf0 = draw(st.integers(3, 7 - nblocks))
@@ -109,24 +116,48 @@ def strategy(tier):
             ratios = [1.0] * 3 if unit else [draw(st.floats(0.7, 2.0)) for _ in range(3)]
             msbar = None
         sv = scheme == "POLE" and draw(st.sampled_from([False] * 7 + [True]))
-        target, ttype = None, "none"
-        if draw(st.sampled_from([False, False, True])):
+        target, ttype, tkind, torder = None, "none", "none", "none"
+        if draw(st.sampled_from([False, False, False, True, True])):
             ttype = draw(st.sampled_from(["list", "list", "array", "xgrid"]))
-            pts = []
-            for _ in range(draw(st.integers(2, 6))):
-                if draw(st.booleans()):
-                    pts.append(xgrid[draw(st.integers(0, n - 1))])
-                else:
-                    pts.append(float(math.exp(math.log(xgrid[0]) * (1.0 - draw(st.floats(0.0, 1.0))))))
-            pts = sorted(set(pts))
-            target = [pts[0]]
-            for x in pts[1:]:
-                if x > target[-1] * 1.001:
-                    target.append(x)
-            if len(target) < 2:
-                target = [xgrid[0], xgrid[-1]]
-            if len(target) == n and np.allclose(target, xgrid):
-                target = target[:-1]
+            tkind = draw(st.sampled_from(["generic", "generic", "perturbed", "perturbed", "grid"]))
+            if tkind == "grid":
+                target = list(xgrid)
+            elif tkind == "perturbed":
+                # the operator grid with nodes moved by < 8e-6 relative or < 1e-8 absolute (the lowest node only up,
+                # the highest only down, order and separation kept): same length, "almost" the same grid
+                target = []
+                for i, x in enumerate(xgrid):
+                    how = draw(st.sampled_from(["keep", "rel", "abs"]))
+                    u = draw(st.floats(0.1, 1.0))
+                    sign = 1.0 if (draw(st.booleans()) or i == 0) and i != n - 1 else -1.0
+                    y = x * (1.0 + sign * u * 8e-6) if how == "rel" else (x + sign * u * 0.9e-8 if how == "abs" else x)
+                    lo = target[-1] * 1.001 if target else 0.0
+                    hi = (xgrid[i + 1] - 1e-8) / 1.001 if i + 1 < n else 1.0
+                    target.append(float(y) if lo < y <= hi else float(x))
+                if target == list(xgrid):
+                    target[0] = float(xgrid[0] * (1.0 + 4e-6))
+            else:
+                pts = []
+                for _ in range(draw(st.integers(2, 6))):
+                    if draw(st.booleans()):
+                        pts.append(xgrid[draw(st.integers(0, n - 1))])
+                    else:
+                        pts.append(float(math.exp(math.log(xgrid[0]) * (1.0 - draw(st.floats(0.0, 1.0))))))
+                pts = sorted(set(pts))
+                target = [pts[0]]
+                for x in pts[1:]:
+                    if x > target[-1] * 1.001:
+                        target.append(x)
+                if len(target) < 2:
+                    target = [xgrid[0], xgrid[-1]]
+            # explicit grids are written in the order given: ascending, descending or arbitrary
+            torder = draw(st.sampled_from(["ascending", "ascending", "descending", "shuffled"]))
+            if torder == "descending":
+                target = target[::-1]
+            elif torder == "shuffled":
+                target = list(draw(st.permutations(target)))
+                if target == sorted(target):
+                    target = target[::-1]
         members = draw(st.sampled_from([1, 1, 2, 3]))
         return dict(
             kind="evolve",
@@ -147,6 +178,8 @@ def strategy(tier):
                      for _ in range(members)],
             target=target,
             ttype=ttype,
+            tkind=tkind,
+            torder=torder,
             info_update=draw(st.sampled_from([None, None, {"SetDesc": "harness set", "HarnessKey": 15.3}])),
             install=draw(st.sampled_from([False, False, False, True])),
         )
@@ -314,12 +347,18 @@ def check_case(case):
     n = len(xgrid)
     layout = regroup(case["mugrid"])
     target, ttype = case["target"], case["ttype"]
-    out_x = list(target) if target is not None else list(xgrid)
+    # an XGrid sorts its nodes itself; lists and arrays are written in the order given
+    out_x = list(xgrid) if target is None else (sorted(target) if ttype == "xgrid" else list(target))
+    tkind = case.get("tkind", "none" if target is None else "generic")
+    torder = "none" if target is None else (
+        "ascending" if out_x == sorted(out_x) else "descending" if out_x == sorted(out_x, reverse=True) else "shuffled")
     rounded = all(round(mu, 4) == mu for mu, _ in case["mugrid"])
     sorted_ends = (case["mugrid"][0][0] == min(m for m, _ in case["mugrid"])
                    and case["mugrid"][-1][0] == max(m for m, _ in case["mugrid"]))
     res.classes = [
-        "kind=evolve", f"blocks={len(layout)}", f"scheme={case['scheme']}", f"target={ttype}", f"members={case['members']}",
+        "kind=evolve", f"blocks={len(layout)}", f"scheme={case['scheme']}", f"target={ttype}", f"target-kind={tkind}",
+        f"target-order={torder}", f"xmin={'<1e-6' if xgrid[0] < 1e-6 else '<1e-3' if xgrid[0] < 1e-3 else '>=1e-3'}",
+        f"members={case['members']}",
         f"qcd={case['qcd']}", f"method={case['method']}", f"xif={'1' if case['xif'] == 1.0 else 'sv'}",
         f"install={case['install']}", f"bad_scales={case['bad_scales']}", f"scales={'rounded' if rounded else 'generic'}",
         f"grid-ends={'sorted' if sorted_ends else 'unsorted'}", f"unit-ratios={case['ratios'] == [1.0] * 3}",
@@ -382,7 +421,7 @@ def check_case(case):
         if dats != want_dats:
             res.fail(f"{ID}/files/members", f"member files {dats}, expected {want_dats}")
             return res
-        rmat = None if target is None else bs.interp_matrix(xgrid, deg, target)
+        rmat, amat = (None, None) if target is None else bs.interp_matrix(xgrid, deg, out_x, True)
         written_q, written_pids = None, None
         for m, pdf in enumerate(pdfs):
             try:
@@ -414,7 +453,7 @@ def check_case(case):
                     want = bs.contract(op, f)
                     scale = bs.contract_scale(op, f)
                     if rmat is not None:
-                        want, scale = want @ rmat.T, scale @ np.abs(rmat).T
+                        want, scale = want @ rmat.T, scale @ (np.abs(rmat) + AMP_W * amat).T
                     for ip, pid in enumerate(blk["pids"]):
                         a = bs.FLAV.index(pid)
                         for ix, x in enumerate(out_x):
@@ -461,10 +500,10 @@ def check_case(case):
             for key in ("XMin", "XMax", "QMin", "QMax", "NumMembers", "NumFlavors", "AlphaS_Qs", "AlphaS_Vals", "Flavors"):
                 if info_back.get(key) != info.get(key):
                     res.fail(f"{ID}/reread/info", f"{key}: yaml {info_back.get(key)!r} vs harness parser {info.get(key)!r}")
-        for key, want in (("XMin", out_x[0]), ("XMax", out_x[-1])):
+        for key, want in (("XMin", min(out_x)), ("XMax", max(out_x))):
             got = info.get(key)
             if not isinstance(got, (int, float)) or not rel_close(float(got), want, 1e-12):
-                res.fail(f"{ID}/info/xrange/target={ttype != 'none'}", f"{key} = {got!r}, written x-grid spans {out_x[0]} .. {out_x[-1]}")
+                res.fail(f"{ID}/info/xrange/target={ttype != 'none'}", f"{key} = {got!r}, written x nodes are {out_x}")
         all_mus = [mu for _, mus in layout for mu in mus]
         for key, want, first in (("QMin", min(all_mus), case["mugrid"][0][0]), ("QMax", max(all_mus), case["mugrid"][-1][0])):
             got = info.get(key)
